@@ -465,10 +465,18 @@ pub fn run_c14(opts: &Opts, out: &mut Emitter) {
         };
         let cost_models = !r.chance(1, 8);
         let st = store_with(&amounts);
+        // every protocol-parameter set: a third of the cases draw each number from the edges of its type
+        let (a, b, cpb, extra) = if r.chance(1, 3) {
+            (*r.pick(&[0u64, 1, 44, 1000, 1 << 32, u64::MAX]), *r.pick(&[0u64, 155_381, 1_000_000, u64::MAX]),
+             *r.pick(&[0u64, 1, 4310, u64::MAX]), *r.pick(&[None, Some(0u64), Some(200_000), Some(u64::MAX)]))
+        } else {
+            (44, 155_381, 4310, Some(0))
+        };
         out.case("resolve", || {
-            let mut c = Tracing::new(store::compiler(store::pparams(false, 44, 155_381, 4310, cost_models), Some(0)));
+            let mut c = Tracing::new(store::compiler(store::pparams(false, a, b, cpb, cost_models), extra));
             let res = resolve_outcome(&mut c, &tx, &args, &st, 3);
             json!({"probe": "resolve", "src": t.src, "quantity": int(q), "tip": int(tip),
+                   "pparams": [json!(a.to_string()), json!(b.to_string()), json!(cpb.to_string()), json!(extra.map(|x| x.to_string()))],
                    "store": amounts.iter().map(|x| int(*x)).collect::<Vec<_>>(), "obs": {"result": res, "passes": c.take().len()}})
         });
     }
